@@ -58,7 +58,7 @@ custom-action loops in `handle_keystate_changes`; `tbl id` is the custom action 
 def customEffects (tbl : Nat → List CAct) (k : KState) : CustomEv → KState
   | .noEvent => k
   | .press id => (tbl id).foldl (fun k a => match a with
-      | .cancelMacroOnNextPress d => { k with cancelDur := d }
+      | .cancelMacroOnNextPress d => { k with cancelDur := max k.cancelDur d }  -- fix PENDING-t5-3 (was `:= d`: the last one won)
       | _ => k) k
   | .release id => (tbl id).foldl (fun k a => match a with
       | .cancelMacroOnRelease => { lay := cancelAll k.lay, cancelDur := 0 }
